@@ -134,6 +134,17 @@ theorem len_within (bs : Bytes) (n : Nat) (h : containerLen bs = .ok n) : n ≤ 
 
 example : containerLen [0x15, 0x24, 0x01, 0x05, 0x18, 0xff] = .ok 5 := by decide
 
+/-- for a **container** the length computed by the `container_value_len` walk already lies within the
+input — independently of the final bounds check of `container_len` (which is what rejects over-long
+*strings*, e.g. `30 05 01`) -/
+theorem container_value_len_within (bs : Bytes) (c : Control) (n : Nat) (hu : bs.length + 1 < USIZE)
+    (hc : control bs = .ok c) (hic : c.vt.isContainer = true) (h : containerValueLen bs c = .ok n) :
+    hdrLen c + n ≤ bs.length :=
+  containerValueLen_within bs c n hu hc hic h
+
+example : control [0x15, 0x24, 0x01, 0x05, 0x18, 0xff] = .ok ⟨.anon, .cont .struct⟩ ∧
+    containerValueLen [0x15, 0x24, 0x01, 0x05, 0x18, 0xff] ⟨.anon, .cont .struct⟩ = .ok 4 := by decide
+
 /-- `raw_value()` is a contiguous sub-slice of the input -/
 theorem raw_value_within (bs v : Bytes) (h : rawValue bs = .ok v) : v <:+: bs := by
   unfold rawValue at h
